@@ -212,7 +212,7 @@ func runC19(t *testing.T, seed uint64, m *Mask) *Report {
 						e.Fail("C19/real-ip-wrong", "op %s (%s): the caller supplied a real IP; the backend saw metadata %q", v.Tag, info, meta)
 					}
 				} else {
-					if !world.MetaHas(meta, v.MetaK, v.MetaV) {
+					if v.MetaK != "" && !world.MetaHas(meta, v.MetaK, v.MetaV) {
 						e.Fail("C19/request-metadata-lost", "op %s (%s): the backend saw metadata %q, the caller sent %s=%s", v.Tag, info, meta, v.MetaK, v.MetaV)
 					}
 					if !world.MetaHas(meta, erpc.MetaRealIP, callerAddr) {
